@@ -246,6 +246,16 @@ func (g *qGen) selections(t *TypeSpec, depth int, top bool) []string {
 	out := []string{}
 	for i := 0; i < n; i++ {
 		fl := fs[g.r.Intn(len(fs))]
+		if g.k.NamedFrags && depth >= 1 && g.pct(50) {
+			// documents with named fragments look for the fields of an abstract type: a fragment declared on
+			// an implementer and spread where the interface is selected has another type than its surroundings
+			for _, cand := range fs {
+				if tt := g.f.Type(cand.Type.Named); tt != nil && tt.Kind == "INTERFACE" {
+					fl = cand
+					break
+				}
+			}
+		}
 		g.budget--
 		if g.budget < 0 {
 			depth = 0
@@ -344,7 +354,7 @@ func (g *qGen) selections(t *TypeSpec, depth int, top bool) []string {
 	if t.Kind == "INTERFACE" && g.k.InlineFrags && g.budget > 0 {
 		for _, c := range g.impls(t.Name) {
 			if g.pct(60) {
-				if g.k.NamedFrags && g.pct(35) {
+				if g.k.NamedFrags && g.pct(60) {
 					// a named fragment declared on an implementer, spread where the interface is selected
 					g.feats["spread-on-impl"]++
 					name := fmt.Sprintf("F%d", g.nfrag)
@@ -355,7 +365,7 @@ func (g *qGen) selections(t *TypeSpec, depth int, top bool) []string {
 					}
 					body := strings.Join(g.selections(c, depth, false), " ")
 					g.k.NamedFrags = saved
-					if g.pct(50) {
+					if g.pct(70) {
 						// the plain case: every scalar of the implementer (they usually live at several services),
 						// nothing nested, nothing repeated -- the fragment's type differs from the enclosing type
 						// and that is all
